@@ -10,9 +10,10 @@ package codec
 
 //@ property C23
 //@ spec outAt(i) = ghost(w_arr)[i]
-//@ spec outHas(base, b) = forall i int :: {ghost(w_arr)[base + i]} 0 <= i && i < len(b) ==> ghost(w_arr)[base + i] == b[i]
+//@ spec outHas(base, b) = forall j int :: {ghost(w_arr)[j]} base <= j && j < base + len(b) ==> ghost(w_arr)[j] == b[j - base]
 //@ spec outKeeps(n0) = forall j int :: {ghost(w_arr)[j]} 0 <= j && j < n0 ==> ghost(w_arr)[j] == old(ghost(w_arr))[j]
 //@ spec outSane() = 0 <= ghost(w_len) && ghost(w_len) < 0x1000000000000000
+//@ spec outRoom() = 0 <= ghost(w_len) && ghost(w_len) < 0x2000000000000000
 
 //@ func sizeToBytes(s) (bs)
 //@   arith bv
@@ -27,11 +28,11 @@ package codec
 //@ func (w *rlpWriter) writeAll(b) (err)
 //@   arith bv
 //@   pure
-//@   requires w != nil && w.writer != nil && outSane() && len(b) < 0x1000000000000000
+//@   requires w != nil && w.writer != nil && outRoom() && len(b) < 0x1000000000000000
 //@   ensures [appended] err == nil ==> ghost(w_len) == old(ghost(w_len)) + len(b) && outHas(old(ghost(w_len)), b)
 //@   ensures [prefix] outKeeps(old(ghost(w_len))) && ghost(w_len) >= old(ghost(w_len)) && ghost(w_len) <= old(ghost(w_len)) + len(b)
 //@   loop 0: invariant 0 <= written && written <= len(b) && ghost(w_len) == old(ghost(w_len)) + written
-//@   loop 0: invariant forall i int :: {ghost(w_arr)[old(ghost(w_len)) + i]} 0 <= i && i < written ==> ghost(w_arr)[old(ghost(w_len)) + i] == b[i]
+//@   loop 0: invariant forall j int :: {ghost(w_arr)[j]} old(ghost(w_len)) <= j && j < old(ghost(w_len)) + written ==> ghost(w_arr)[j] == b[j - old(ghost(w_len))]
 //@   loop 0: invariant outKeeps(old(ghost(w_len)))
 
 // writeBytes emits exactly the RLP string encoding: single small byte as itself, short strings with
@@ -39,6 +40,7 @@ package codec
 // nil as F8 00.
 //@ func (w *rlpWriter) writeBytes(b) (err)
 //@   arith bv
+//@   opt nomerge
 //@   pure
 //@   requires w != nil && w.writer != nil && outSane() && len(b) < 0x1000000000000000
 //@   requires len(nullSequence) == 2 && nullSequence[0] == 0xf8 && nullSequence[1] == 0
@@ -54,6 +56,7 @@ package codec
 // list header: tag 0xC0+len for payloads up to 55 bytes, 0xF7+k and the minimal length otherwise
 //@ func (w *rlpWriter) writeList(b) (err)
 //@   arith bv
+//@   opt nomerge
 //@   pure
 //@   requires w != nil && w.writer != nil && outSane() && len(b) < 0x1000000000000000
 //@   ensures [prefix] outKeeps(old(ghost(w_len)))
